@@ -632,6 +632,10 @@ class AssetDetector(_Base, ReadableMixin, StageableMixin, TriggerableMixin):
         from event_model import compose_resource
 
         f, n = self._enter("trigger")
+        if self.spec.get("resource_per_point"):
+            # one file (Resource) per point, its single frame numbered 0 each time
+            self._resource = None
+            self._ntrig_in_resource = 0
         if self._resource is None:
             kwargs = dict(self.spec.get("resource_kwargs", {"path": "/entry/data", "frame_per_point": 1}))
             self._resource = compose_resource(
@@ -642,7 +646,7 @@ class AssetDetector(_Base, ReadableMixin, StageableMixin, TriggerableMixin):
             self._pending.append(("resource", r))
         dk = {"point_number": self._ntrig}
         if self.spec.get("frame_kwarg"):
-            dk = {"frame": self._ntrig}
+            dk = {"frame": 0 if self.spec.get("resource_per_point") else self._ntrig}
         d = self._resource.compose_datum(datum_kwargs=dk)
         self._ntrig += 1
         self._datum_id = d["datum_id"]
